@@ -42,7 +42,7 @@ def width(t):
         return 8
     if k in ('mem', 'signof', 'baddiv', 'junk', 'fp2int', 'observed', 'casax'):
         return t[1]
-    if k in ('init', 'clobber'):
+    if k in ('init', 'clobber', 'ret'):
         return 64
     if k == 'ins':
         return 64
@@ -243,6 +243,8 @@ class Machine:
             if disp == 0 and s.stack:
                 t = s.stack[-1]
                 return lo(w, t) if w < 64 else t
+            if disp > 0 and disp % 8 == 0 and w == 64 and disp // 8 < len(s.stack):
+                return s.stack[-1 - disp // 8]
             k = ('rsp', disp)
             if k in s.scratch:
                 sw, t = s.scratch[k]
@@ -253,7 +255,16 @@ class Machine:
                 if w < sw:
                     return lo(w, t) if t[0] not in ('fval',) else ('lo', w, t)
             return ('mem', w, ('rsp', disp))
-        return ('mem', w, self.addr(s, op))
+        a = self.addr(s, op)
+        for (sa, sw, sv, sk) in reversed(s.stores):
+            if sa == a and sw == w:
+                return sv
+            if sa[0] == a[0] == 'addr' and sa[1] == a[1] and isinstance(sa[2], int) and isinstance(a[2], int):
+                if sa[2] < a[2] + w // 8 and a[2] < sa[2] + sw // 8:
+                    break      # partial overlap: give up forwarding
+                continue
+            break              # a store through another base may alias
+        return ('mem', w, a)
 
     def store(self, s, op, w, t, kind='int'):
         _, disp, base, idx, sc = op
@@ -261,6 +272,21 @@ class Machine:
             if disp == 0 and s.stack and w == 64:
                 s.stack[-1] = t
                 return
+            if disp >= 0 and disp // 8 < len(s.stack):
+                pos = len(s.stack) - 1 - disp // 8
+                if w == 64 and disp % 8 == 0:
+                    s.stack[pos] = t
+                    return
+                if w == 128 and disp % 8 == 0 and pos >= 1:
+                    s.stack[pos] = ('f80lo', t); s.stack[pos - 1] = ('f80hi', t)
+                    return
+                if w < 64 and disp % 8 + w // 8 <= 8:
+                    old = s.stack[pos]
+                    d = dict(old[1]) if (isinstance(old, tuple) and old[0] == 'bytes') else {}
+                    for j in range(w // 8):
+                        d[disp % 8 + j] = t if w == 8 else ('bytepart', t, j)
+                    s.stack[pos] = ('bytes', d)
+                    return
             s.scratch[('rsp', disp)] = (w, t)
             return
         s.stores.append((self.addr(s, op), w, t, kind))
@@ -515,7 +541,7 @@ class Machine:
         n = ops[0][1] // 8
         if sign < 0:
             for _ in range(n):
-                s.stack.append(('slot',))
+                s.stack.append(('bytes', {}))
         else:
             for _ in range(n):
                 if not s.stack:
@@ -642,9 +668,15 @@ class Machine:
             s.wr('eax', q); s.wr('edx', r)
 
     def i_call(self, s, ops):
+        s.events.append(('callsite', ops[0], dict(s.reg), dict(s.xmm), list(s.stack), list(s.st)))
         s.events.append(('call', ops[0]))
+        n = sum(1 for e in s.events if e[0] == 'call')
         for r in ('rax', 'rcx', 'rdx', 'rsi', 'rdi', 'r8', 'r9', 'r10', 'r11'):
             s.reg[r] = ('clobber', r)
+        # return registers of the callee
+        s.reg['rax'] = ('ret', 'rax', n); s.reg['rdx'] = ('ret', 'rdx', n)
+        for x in range(16):
+            s.xmm[x] = ('retx', x, n) if x < 2 else ('clobber', 'xmm%d' % x)
 
     def i_lock_cmpxchg(self, s, ops):
         self._cmpxchg(s, ops, True)
@@ -669,6 +701,9 @@ class Machine:
             s.reg['rax'] = ('casax', 64, s.reg['rax'], ext('zx', 32, 64, obs), n)
         else:
             s.reg['rax'] = ('casax', 64, s.reg['rax'], ('ins', w, s.reg['rax'], obs), n)
+
+    def i_ret(self, s, ops):
+        s.events.append(('ret',))
 
     def i_rep(self, s, ops):
         s.events.append(('rep', ops))
